@@ -134,7 +134,10 @@ def route(tokeniser: Any) -> list[Route]:
             else:
                 # Flow rules that need iteration and add()
                 for adding in handler(tokeniser):
-                    flow_nlri.add(adding)
+                    if not flow_nlri.add(adding):
+                        # add() answers False for a source and a destination of two address families: the second
+                        # prefix was dropped and the rule sent wider than written
+                        raise ValueError(f'flow route: {adding} is not of the address family of the other prefix')
         elif target == ActionTarget.ATTRIBUTE:
             handler = cast(Callable[[Any], Any], ParseFlow.known[command])
             attributes.add(handler(tokeniser))
